@@ -335,8 +335,9 @@ def run(case):
         twin = cls_of(case['cls'])(bin=content)
         r1 = apply_op(obj, case)
         r2 = apply_op(twin, case)
-        require(r1 == r2, 'the same operation gives different results depending on how the bitstring was built', route=case['route'], op=case['op'], lsb0=case['lsb0'],
-                via_route=str(r1)[:160], plain=str(r2)[:160], n=len(content))
+        if r1 != r2:      # (the details are only rendered when needed: str() of a megabit integer is slow)
+            require(False, 'the same operation gives different results depending on how the bitstring was built', route=case['route'], op=case['op'], lsb0=case['lsb0'],
+                    via_route=str(r1)[:160], plain=str(r2)[:160], n=len(content))
         if not case['op'].startswith('mutate:') and case['op'] not in STREAM_OPS:
             require(obj.bin == content, 'a non-mutating operation changed the object built through the route', op=case['op'], route=case['route'])
         if case['op'].startswith('mutate:'):
